@@ -52,6 +52,7 @@ func init() {
 				s := txfile.VerifSnapshot(e.File)
 				fmt.Printf("   active=%d hdr0(txid=%d valid=%v dend=%d) hdr1(txid=%d valid=%v dend=%d) dataEnd=%d metaEnd=%d size=%d mapped=%d\n", s.MetaActive,
 					s.Hdr[0].Txid, s.Hdr[0].Valid, s.Hdr[0].DataEndMarker, s.Hdr[1].Txid, s.Hdr[1].Valid, s.Hdr[1].DataEndMarker, s.DataEnd, s.MetaEnd, s.Size, s.MappedLen)
+				fmt.Printf("   maxPages=%d metaTotal=%d metaFree=%v dataFree=%v flPages=%v walPages=%v wal=%v\n", s.MaxPages, s.MetaTotal, s.MetaFree, s.DataFree, s.FreelistPages, s.WalMetaPages, s.WalMapping)
 			}
 		}
 		for _, f := range e.Failures {
